@@ -150,7 +150,7 @@ META = {
     technique="runtime monitor: reference schedule model (eligibility instants of user requests, polls, keep-alives; least-recently-served ring) evaluated at every request the master writes in virtual time, plus scheduler-pass counter from hook H5",
     text=("Exploration over 1-3 associations on one channel with polls, keep-alives, user requests submitted singly or in bursts at arbitrary virtual instants, poll demands, prompt/late/missing replies and unrelated traffic. At each request written: Q1 user requests are FIFO per association and precede every poll and keep-alive; Q2 a poll is never sent before its previous completion (reply or time-out) plus its period unless demanded; "
           "Q3 among associations with work of the same class the least recently served goes first; Q4 a link status request is sent only after keep-alive silence from that outstation and not while one of its polls is due; Q5 never two requests outstanding; Q6 the write instant equals max(channel became free, earliest eligibility of anything pending) exactly - no starvation, no early wake-up - and the number of scheduler passes is bounded by the number of events."),
-    note="Automatic start-up tasks are disabled here (C17 covers them); channel enable/disable toggles are not yet driven.",
+    note="Automatic start-up tasks are disabled here (C17 covers them). Channel disable/enable toggles are driven (Q7: nothing is written while disabled; the schedule model holds again on the new connection).",
  ),
  "C18": dict(
     engine="vh",
@@ -190,6 +190,6 @@ META = {
     technique="exhaustive enumeration of conversion variants with a name/injectivity/round-trip oracle plus differential runtime monitoring of the binding's database entry points against the native API (harness compiled into dnp3-ffi by hook H4)",
     text=("Fault enumeration over the binding crate's conversions: all variants of 40+ binding enumerations and all 256 octet values of the native command status, function code and control code types are pushed through the conversion impls and compared by normalised name, injectivity and (where both directions exist) identity of the round trip; struct conversions are probed with a distinct sentinel in every field. "
           "Differential exploration: random operation sequences through database_add_* / remove / update_*_2 / update_flags / get_* (raw-pointer entry points) on one database and through Database::add / remove / update2 / update_flags / get on another must return the same results and leave databases with byte-identical wire images (all buffered events + class 0)."),
-    note="Conversions of error types with payloads (CommandError, TimeSyncError, FileError, ParamError sources), TLS / serial settings and attribute values are not enumerated; callbacks into foreign code are out of reach (no C is crossed).",
+    note="Error conversions (TaskError into eight binding enums, CommandError, TimeSyncError, FileError, WriteError, AssociationError, PollError) are compared with a hand-written table of binding names; TLS / serial settings and attribute values are not enumerated; callbacks into foreign code are out of reach (no C is crossed).",
  ),
 }
